@@ -184,7 +184,13 @@ func TestRAC_C13(t *testing.T) {
 				for k := 0; k < len(data); k++ {
 					var p2 *Pollard
 					var rerr error
-					pan := safely(func() { _, p2, rerr = RestorePollardFrom(bytes.NewReader(data[:k])) })
+					var rn int64
+					rd := bytes.NewReader(data[:k])
+					pan := safely(func() { rn, p2, rerr = RestorePollardFrom(rd) })
+					res.eval("RestorePollardFrom.rac.count-on-error")
+					if consumed := k - rd.Len(); pan == "" && rerr != nil && int(rn) != consumed {
+						res.fail("RestorePollardFrom.rac.count-on-error", in("prefix", k, "bytes", len(data)), fmt.Sprintf("err=%v reported=%d", rerr, rn), fmt.Sprintf("%d bytes consumed", consumed))
+					}
 					res.eval("RestorePollardFrom.rac.prefix")
 					if pan != "" || (rerr == nil && (p2 == nil || viewString(p2, w.spec) != want)) {
 						res.fail("RestorePollardFrom.rac.prefix", in("prefix", k, "bytes", len(data)), fmt.Sprintf("panic=%q err=%v (accepted a damaged stream)", pan, rerr), "an error, or a state identical to the original")
@@ -193,7 +199,12 @@ func TestRAC_C13(t *testing.T) {
 				}
 				for k := 0; k < len(data); k++ {
 					var werr error
-					pan := safely(func() { _, werr = w.pol.WriteTo(&failWriter{k}) })
+					var wn int64
+					pan := safely(func() { wn, werr = w.pol.WriteTo(&failWriter{k}) })
+					res.eval("Pollard.WriteTo.rac.count-on-error")
+					if pan == "" && werr != nil && int(wn) != k {
+						res.fail("Pollard.WriteTo.rac.count-on-error", in("fail_offset", k), fmt.Sprintf("err=%v reported=%d", werr, wn), fmt.Sprintf("%d bytes produced", k))
+					}
 					res.eval("Pollard.WriteTo.rac.failing-sink")
 					if pan != "" || werr == nil {
 						res.fail("Pollard.WriteTo.rac.failing-sink", in("fail_offset", k), fmt.Sprintf("panic=%q err=%v", pan, werr), "an error")
@@ -264,7 +275,13 @@ func TestRAC_C13(t *testing.T) {
 				for k := 0; k < len(data); k++ {
 					m2 := NewMapPollard(w.cfgs[i].Full)
 					var rerr error
-					pan := safely(func() { _, rerr = m2.Read(bytes.NewReader(data[:k])) })
+					var rn int
+					rd := bytes.NewReader(data[:k])
+					pan := safely(func() { rn, rerr = m2.Read(rd) })
+					res.eval("MapPollard.Read.rac.count-on-error")
+					if consumed := k - rd.Len(); pan == "" && rerr != nil && rn != consumed {
+						res.fail("MapPollard.Read.rac.count-on-error", in("prefix", k, "bytes", len(data)), fmt.Sprintf("err=%v reported=%d", rerr, rn), fmt.Sprintf("%d bytes consumed", consumed))
+					}
 					res.eval("MapPollard.Read.rac.prefix")
 					bad := pan != ""
 					if !bad && rerr == nil {
@@ -277,9 +294,31 @@ func TestRAC_C13(t *testing.T) {
 						break
 					}
 				}
+				if m.CachedLeaves.Length() > 0 && len(data) >= 57 {
+					// a stream whose first cached leaf names a position that holds no node: rejected by the sanity
+					// check after everything was consumed
+					bad := append([]byte(nil), data...)
+					for b := 49; b < 57; b++ {
+						bad[b] = 0xEE
+					}
+					m2 := NewMapPollard(w.cfgs[i].Full)
+					var rn int
+					var rerr error
+					rd := bytes.NewReader(bad)
+					pan := safely(func() { rn, rerr = m2.Read(rd) })
+					res.eval("MapPollard.Read.rac.count-on-error")
+					if consumed := len(bad) - rd.Len(); pan == "" && rerr != nil && rn != consumed {
+						res.fail("MapPollard.Read.rac.count-on-error", in("corrupted", "position of the first cached leaf", "bytes", len(data)), fmt.Sprintf("err=%v reported=%d", rerr, rn), fmt.Sprintf("%d bytes consumed", consumed))
+					}
+				}
 				for k := 0; k < len(data); k++ {
 					var werr error
-					pan := safely(func() { _, werr = m.Write(&failWriter{k}) })
+					var wn int
+					pan := safely(func() { wn, werr = m.Write(&failWriter{k}) })
+					res.eval("MapPollard.Write.rac.count-on-error")
+					if pan == "" && werr != nil && wn != k {
+						res.fail("MapPollard.Write.rac.count-on-error", in("fail_offset", k), fmt.Sprintf("err=%v reported=%d", werr, wn), fmt.Sprintf("%d bytes produced", k))
+					}
 					res.eval("MapPollard.Write.rac.failing-sink")
 					if pan != "" || werr == nil {
 						res.fail("MapPollard.Write.rac.failing-sink", in("fail_offset", k), fmt.Sprintf("panic=%q err=%v", pan, werr), "an error")
